@@ -240,7 +240,7 @@ def check_memo(ctx, repo, cg, rid):
                     if "epoch" in txt or "generation" in txt or "version" in txt:
                         guarded = True
             arm = next((src(t) for t, pol in path_conditions(n, f.node) if pol and isinstance(t, ast.Call) and isinstance(t.func, ast.Attribute) and t.func.attr.startswith("is_")), "eval")
-            ctx.ob(rid, f.fq, f"node-level compile memo .{name} is invalidated when a variable is rebound", guarded, node=n, construct=f"node memo .{name} never invalidated ({arm} arm)",
+            ctx.ob(rid, f.fq, f"node-level compile memo .{name} is invalidated when a variable is rebound", guarded, node=n, construct=f"node memo .{name} never invalidated",
                    msg=f"compiled code memoised on the syntax-tree node (.{name}) depends on the types of the variables' values at first evaluation; __setitem__/__delitem__ clear only _compiled_cache, so after rebinding a variable a function body keeps running code specialised to the old type")
     # (c) who may write variables
     nvw = 0
